@@ -3,7 +3,8 @@
     [wf] is the object invariant (sign is 1 or -1, at least one word, words < 2^64, a negative bignum is
     not zero; fixnums are 62-bit).  The right-hand sides are Coq's Z operations, i.e. the operations on the
     infinite two's-complement bit string (Z.testbit). *)
-From ChibiV Require Import Common.Words C17.Model C17.Spec C17.Proofs C17.ProofsOps C17.ProofsShift C17.ProofsBitset C17.ProofsLength C17.ProofsCount C17.LeafTie Gen.C17_Leaf.
+From ChibiV Require Import Common.Words C17.Model C17.Spec C17.Proofs C17.ProofsOps C17.ProofsShift C17.ProofsBitset C17.ProofsLength C17.ProofsCount C17.ProofsSwar C17.LeafTie Gen.C17_Leaf
+  C17.SchemeBase Gen.C17_Bitwise C17.ProofsDerivedSeq C17.ProofsDerived Gen.C17_Wrappers C17.ProofsWrappers.
 Local Open Scope Z_scope.
 
 (** sexp_set_twos_complement: the converted words are (-|n|) mod B^len *)
@@ -46,13 +47,18 @@ Theorem integer_log2_word : forall w, isword w -> integer_log2 w = bitlen w.
 Proof. exact integer_log2_ok. Qed.
 Print Assumptions integer_log2_word.
 
-(** sexp_bit_count: the borrow loop over the words of a bignum, both signs, and the fixnum case.
-    PARTIAL: the premise [swar_correct] (the SWAR population count of ONE 64-bit word, bit.c:319-326,
-    equals the number of 1 bits) is not proved; the full statement is the same without that premise:
-      forall x, wf x -> ival (bit_count x) = bit_count_spec (ival x). *)
-Theorem bit_count_Z_partial : swar_correct -> forall x, wf x -> ival (bit_count x) = bit_count_spec (ival x).
-Proof. exact bit_count_ok. Qed.
-Print Assumptions bit_count_Z_partial.
+(** bit_count (bit.c:332-339), the SWAR population count of ONE 64-bit word: for EVERY word the masked
+    adds and the final multiplication (constants regenerated from bit.c, theorem leaf_data_matches_source)
+    give the number of 1 bits *)
+Theorem bit_count_word : forall w, isword w -> bit_count_w w = Zpopcount w.
+Proof. exact swar_correct_all. Qed.
+Print Assumptions bit_count_word.
+
+(** sexp_bit_count: the borrow loop over the words of a bignum, both signs, and the fixnum case
+    (no premise any more: the one-word leaf is bit_count_word) *)
+Theorem bit_count_Z : forall x, wf x -> ival (bit_count x) = bit_count_spec (ival x).
+Proof. exact bit_count_all. Qed.
+Print Assumptions bit_count_Z.
 
 (** the spec's population count is the count of set bits (SRFI 151's wording) *)
 Theorem popcount_is_testbit_count : forall k n, 0 <= n < 2 ^ Z.of_nat k -> Zpopcount n = count_bits k n.
@@ -66,3 +72,250 @@ Theorem leaf_data_matches_source :
   /\ src_H01 = H01 /\ src_final_shift = 56.
 Proof. exact leaf_data_ok. Qed.
 Print Assumptions leaf_data_matches_source.
+
+(** * The derived operations of lib/srfi/151/bitwise.scm.
+    The functions [s_*] are REGENERATED from bitwise.scm on every run (gen/c17_bitwise.py -> Gen/C17_Bitwise.v), with the
+    seven primitives of bit.c replaced by the Z operations they are proved to compute above (bit-and -> Z.land, bit-ior ->
+    Z.lor, bit-xor -> Z.lxor, arithmetic-shift -> Z.shiftl, integer-length -> integer_length_spec, bit-set? -> Z.testbit).
+    Bits are those of the infinite two's-complement string (Z.testbit), so negative operands are covered everywhere. *)
+
+Theorem bitwise_not_Z : forall i, s_bitwise_not i = Z.lnot i.
+Proof. exact s_bitwise_not_lnot. Qed.
+Print Assumptions bitwise_not_Z.
+
+(** two-argument and / ior / xor / eqv / nand / nor / andc1 / andc2 / orc1 / orc2 *)
+Theorem binary_ops_Z : forall a b,
+  s_bitwise_and [a; b] = Z.land a b /\ s_bitwise_ior [a; b] = Z.lor a b /\ s_bitwise_xor [a; b] = Z.lxor a b
+  /\ s_bitwise_eqv [a; b] = Z.lnot (Z.lxor a b) /\ s_bitwise_nand [a; b] = Z.lnot (Z.land a b)
+  /\ s_bitwise_nor [a; b] = Z.lnot (Z.lor a b)
+  /\ s_bitwise_andc1 a b = Z.land (Z.lnot a) b /\ s_bitwise_andc2 a b = Z.land a (Z.lnot b)
+  /\ s_bitwise_orc1 a b = Z.lor (Z.lnot a) b /\ s_bitwise_orc2 a b = Z.lor a (Z.lnot b).
+Proof. exact binary_ops. Qed.
+Print Assumptions binary_ops_Z.
+
+(** the n-ary forms (any number of arguments, 0 included): bit k of the result is the and / or / xor / iterated
+    equivalence of the arguments' bits k; n-ary eqv is the fold of BINARY eqv from -1 (SRFI 151), which requires
+    fixes/C17-bitwise-eqv-nary.patch *)
+Theorem nary_and_Z : forall l k, 0 <= k -> Z.testbit (s_bitwise_and l) k = fold_left (fun acc x => acc && Z.testbit x k) l true.
+Proof. exact nary_and_bits. Qed.
+Print Assumptions nary_and_Z.
+Theorem nary_ior_Z : forall l k, Z.testbit (s_bitwise_ior l) k = fold_left (fun acc x => acc || Z.testbit x k) l false.
+Proof. exact nary_ior_bits. Qed.
+Print Assumptions nary_ior_Z.
+Theorem nary_xor_Z : forall l k, Z.testbit (s_bitwise_xor l) k = fold_left (fun acc x => xorb acc (Z.testbit x k)) l false.
+Proof. exact nary_xor_bits. Qed.
+Print Assumptions nary_xor_Z.
+Theorem nary_eqv_Z : forall l k, 0 <= k -> Z.testbit (s_bitwise_eqv l) k = fold_left (fun acc x => Bool.eqb acc (Z.testbit x k)) l true.
+Proof. exact nary_eqv_bits. Qed.
+Print Assumptions nary_eqv_Z.
+
+Theorem any_bit_set_Z : forall t i,
+  s_any_bit_set_p t i = negb (Z.land t i =? 0)
+  /\ (s_any_bit_set_p t i = false <-> forall k, 0 <= k -> Z.testbit t k && Z.testbit i k = false).
+Proof. exact any_bit_set_spec. Qed.
+Print Assumptions any_bit_set_Z.
+Theorem every_bit_set_Z : forall t i,
+  s_every_bit_set_p t i = (Z.land t i =? t)
+  /\ (s_every_bit_set_p t i = true <-> forall k, 0 <= k -> Z.testbit t k = true -> Z.testbit i k = true).
+Proof. exact every_bit_set_spec. Qed.
+Print Assumptions every_bit_set_Z.
+
+(** first-set-bit: -1 for 0, else the index of the lowest 1 bit (any sign) *)
+Theorem first_set_bit_Z : forall i,
+  (i = 0 -> s_first_set_bit i = -1)
+  /\ (i <> 0 -> 0 <= s_first_set_bit i /\ Z.testbit i (s_first_set_bit i) = true
+               /\ forall m, 0 <= m < s_first_set_bit i -> Z.testbit i m = false).
+Proof. exact first_set_bit_spec. Qed.
+Print Assumptions first_set_bit_Z.
+
+(** bitwise-if in SRFI 151's argument order: where the mask has a 1 the bit of the FIRST operand *)
+Theorem bitwise_if_Z : forall m a b k, 0 <= k ->
+  Z.testbit (s_bitwise_if m a b) k = if Z.testbit m k then Z.testbit a k else Z.testbit b k.
+Proof. exact bitwise_if_bits. Qed.
+Print Assumptions bitwise_if_Z.
+
+(** bit-field: bits start .. end-1 moved down to 0 .. end-start-1, nothing above; any integer n *)
+Theorem bit_field_Z : forall n s e k, 0 <= s <= e -> 0 <= k ->
+  Z.testbit (s_bit_field n s e) k = (k <? e - s) && Z.testbit n (k + s).
+Proof. exact bit_field_bits. Qed.
+Print Assumptions bit_field_Z.
+Theorem bit_field_range_Z : forall n s e, 0 <= s <= e -> 0 <= s_bit_field n s e < 2 ^ (e - s).
+Proof. exact bit_field_range. Qed.
+Print Assumptions bit_field_range_Z.
+Theorem bit_field_any_Z : forall n s e, 0 <= s <= e ->
+  s_bit_field_any_p n s e = negb (field n s e =? 0)
+  /\ (s_bit_field_any_p n s e = false <-> forall k, s <= k < e -> Z.testbit n k = false).
+Proof. exact bit_field_any_spec. Qed.
+Print Assumptions bit_field_any_Z.
+Theorem bit_field_every_Z : forall n s e, 0 <= s <= e ->
+  s_bit_field_every_p n s e = (field n s e =? Z.ones (e - s))
+  /\ (s_bit_field_every_p n s e = true <-> forall k, s <= k < e -> Z.testbit n k = true).
+Proof. exact bit_field_every_spec. Qed.
+Print Assumptions bit_field_every_Z.
+
+(** [inr s e k] = (s <=? k) && (k <? e) *)
+Theorem bit_field_clear_Z : forall n s e k, 0 <= s <= e -> 0 <= k ->
+  Z.testbit (s_bit_field_clear n s e) k = if inr s e k then false else Z.testbit n k.
+Proof. exact clear_bits. Qed.
+Print Assumptions bit_field_clear_Z.
+Theorem bit_field_set_Z : forall n s e k, 0 <= s <= e -> 0 <= k ->
+  Z.testbit (s_bit_field_set n s e) k = if inr s e k then true else Z.testbit n k.
+Proof. exact set_bits. Qed.
+Print Assumptions bit_field_set_Z.
+Theorem bit_field_replace_Z : forall d r s e k, 0 <= s <= e -> 0 <= k ->
+  Z.testbit (s_bit_field_replace d r s e) k = if inr s e k then Z.testbit r (k - s) else Z.testbit d k.
+Proof. exact replace_bits. Qed.
+Print Assumptions bit_field_replace_Z.
+Theorem bit_field_replace_same_Z : forall d r s e k, 0 <= s <= e -> 0 <= k ->
+  Z.testbit (s_bit_field_replace_same d r s e) k = if inr s e k then Z.testbit r k else Z.testbit d k.
+Proof. exact replace_same_bits. Qed.
+Print Assumptions bit_field_replace_same_Z.
+
+(** bit-field-rotate: the field rotated left by count mod width (any integer count, negative = right) *)
+Theorem bit_field_rotate_Z : forall n c s e k, 0 <= s < e -> 0 <= k ->
+  Z.testbit (s_bit_field_rotate n c s e) k
+  = if inr s e k then Z.testbit n (s + (k - s - c) mod (e - s)) else Z.testbit n k.
+Proof. exact rotate_bits. Qed.
+Print Assumptions bit_field_rotate_Z.
+
+Theorem copy_bit_Z : forall idx i (b : bool) k, 0 <= idx -> 0 <= k ->
+  Z.testbit (s_copy_bit idx i b) k = if k =? idx then b else Z.testbit i k.
+Proof. exact copy_bit_bits. Qed.
+Print Assumptions copy_bit_Z.
+Theorem bit_swap_Z : forall i1 i2 i k, 0 <= i1 -> 0 <= i2 -> 0 <= k ->
+  Z.testbit (s_bit_swap i1 i2 i) k
+  = if k =? i1 then Z.testbit i i2 else if k =? i2 then Z.testbit i i1 else Z.testbit i k.
+Proof. exact bit_swap_bits. Qed.
+Print Assumptions bit_swap_Z.
+
+(** the oracle of the outer correspondence (coq/C17/Spec.v) is the regenerated source, definition by definition *)
+Theorem outer_oracle_matches_source :
+  (forall m a b, s_bitwise_if m a b = bitwise_if m a b) /\ (forall n s e, s_bit_field n s e = field n s e)
+  /\ (forall d r s e, s_bit_field_replace d r s e = replace d r s e)
+  /\ (forall d r s e, s_bit_field_replace_same d r s e = replace_same d r s e)
+  /\ (forall n s e, s_bit_field_set n s e = Z.lor n (fmask s e))
+  /\ (forall n s e, 0 <= s <= e -> s_bit_field_clear n s e = Z.land n (Z.lnot (fmask s e)))
+  /\ (forall i, s_first_set_bit i = first_set_bit i).
+Proof.
+  exact (conj s_bitwise_if_spec (conj s_bit_field_field (conj s_replace_spec (conj s_replace_same_spec
+         (conj s_set_spec (conj s_clear_spec first_set_bit_spec_eq)))))).
+Qed.
+Print Assumptions outer_oracle_matches_source.
+
+(** * Loops of bitwise.scm (fuel-bounded models: [None] = out of fuel; the stated fuel always suffices) *)
+
+(** bit-field-reverse: bit k of the field becomes bit start+end-1-k *)
+Theorem bit_field_reverse_Z : forall i s e fuel, 0 <= s <= e -> (Z.to_nat (e - s) < fuel)%nat ->
+  exists r, s_bit_field_reverse fuel i s e = Some r
+            /\ forall k, 0 <= k -> Z.testbit r k = if inr s e k then Z.testbit i (s + e - 1 - k) else Z.testbit i k.
+Proof. exact reverse_bits. Qed.
+Print Assumptions bit_field_reverse_Z.
+
+(** vector->bits / list->bits / bits: element k is bit k *)
+Theorem vector_to_bits_Z : forall v fuel, (length v < fuel)%nat ->
+  exists r, s_vector_to_bits fuel v = Some r /\ 0 <= r < 2 ^ Z.of_nat (length v)
+            /\ forall k, 0 <= k -> Z.testbit r k = nth (Z.to_nat k) v false.
+Proof. exact vector_to_bits_ok. Qed.
+Print Assumptions vector_to_bits_Z.
+Theorem list_to_bits_Z : forall v fuel, (length v < fuel)%nat ->
+  exists r, s_list_to_bits fuel v = Some r /\ 0 <= r < 2 ^ Z.of_nat (length v)
+            /\ forall k, 0 <= k -> Z.testbit r k = nth (Z.to_nat k) v false.
+Proof. exact list_to_bits_ok. Qed.
+Print Assumptions list_to_bits_Z.
+Theorem bits_Z : forall v fuel, (length v < fuel)%nat ->
+  exists r, s_bits fuel v = Some r /\ 0 <= r < 2 ^ Z.of_nat (length v)
+            /\ forall k, 0 <= k -> Z.testbit r k = nth (Z.to_nat k) v false.
+Proof. exact bits_ok. Qed.
+Print Assumptions bits_Z.
+
+(** bits->vector / bits->list, with the optional length or integer-length n; any integer n (with an explicit length the
+    sign bits of a negative n fill the tail) *)
+Theorem bits_to_vector_Z : forall n o fuel,
+  let len := match o with x :: _ => x | [] => integer_length_spec n end in
+  0 <= len -> (Z.to_nat len < fuel)%nat ->
+  exists v, s_bits_to_vector fuel n o = Some v /\ length v = Z.to_nat len
+            /\ forall k, (k < Z.to_nat len)%nat -> nth k v false = Z.testbit n (Z.of_nat k).
+Proof. exact bits_to_vector_ok. Qed.
+Print Assumptions bits_to_vector_Z.
+Theorem bits_to_list_Z : forall n o fuel,
+  let len := match o with x :: _ => x | [] => integer_length_spec n end in
+  0 <= len -> (Z.to_nat len < fuel)%nat ->
+  exists v, s_bits_to_list fuel n o = Some v /\ length v = Z.to_nat len
+            /\ forall k, (k < Z.to_nat len)%nat -> nth k v false = Z.testbit n (Z.of_nat k).
+Proof. exact bits_to_list_ok. Qed.
+Print Assumptions bits_to_list_Z.
+Theorem bits_roundtrip_Z : forall n fuel, 0 <= n -> (Z.to_nat (integer_length_spec n) < fuel)%nat ->
+  exists l, s_bits_to_list fuel n [] = Some l /\ s_list_to_bits fuel l = Some n.
+Proof. exact bits_roundtrip. Qed.
+Print Assumptions bits_roundtrip_Z.
+
+(** bitwise-fold / bitwise-for-each: kons / proc applied to the bits 0 .. integer-length-1 in that order (i >= 0);
+    for i < 0 the Scheme loop never ends (arithmetic-shift of a negative number never reaches 0) *)
+Theorem bitwise_fold_Z : forall (A : Type) (kons : bool -> A -> A) knil i fuel, 0 <= i ->
+  (Z.to_nat (integer_length_spec i) < fuel)%nat ->
+  s_bitwise_fold fuel kons knil i
+  = Some (fold_left (fun acc b => kons b acc)
+            (map (fun k => Z.testbit i (Z.of_nat k)) (seq 0 (Z.to_nat (integer_length_spec i)))) knil).
+Proof. exact bitwise_fold_ok. Qed.
+Print Assumptions bitwise_fold_Z.
+Theorem bitwise_fold_negative_never_ends : forall (A : Type) (kons : bool -> A -> A) knil i fuel, i < 0 ->
+  s_bitwise_fold fuel kons knil i = None.
+Proof. exact bitwise_fold_negative_diverges. Qed.
+Print Assumptions bitwise_fold_negative_never_ends.
+Theorem bitwise_for_each_Z : forall proc i fuel, 0 <= i -> (Z.to_nat (integer_length_spec i) < fuel)%nat ->
+  s_bitwise_for_each fuel proc i
+  = Some (fold_left (fun acc b => proc b)
+            (map (fun k => Z.testbit i (Z.of_nat k)) (seq 0 (Z.to_nat (integer_length_spec i)))) false).
+Proof. exact bitwise_for_each_ok. Qed.
+Print Assumptions bitwise_for_each_Z.
+
+(** bitwise-unfold: bit j of the result is (mapper state_j) for the states before the first one that stops *)
+Theorem bitwise_unfold_Z : forall (St : Type) (stop mapper : St -> bool) (succ : St -> St) seed (k fuel : nat),
+  (forall j, (j < k)%nat -> stop (Nat.iter j succ seed) = false) -> stop (Nat.iter k succ seed) = true -> (k < fuel)%nat ->
+  exists r, s_bitwise_unfold fuel stop mapper succ seed = Some r /\ 0 <= r < 2 ^ Z.of_nat k
+            /\ forall j, 0 <= j -> Z.testbit r j = (j <? Z.of_nat k) && mapper (Nat.iter (Z.to_nat j) succ seed).
+Proof. exact bitwise_unfold_ok. Qed.
+Print Assumptions bitwise_unfold_Z.
+
+(** make-bitwise-generator: the k-th call yields bit k (any integer: a negative one yields its sign bit forever) *)
+Theorem bitwise_generator_Z : forall i (k : nat),
+  fst (s_make_bitwise_generator_step (Nat.iter k (fun s => snd (s_make_bitwise_generator_step s)) i)) = Z.testbit i (Z.of_nat k).
+Proof. exact generator_ok. Qed.
+Print Assumptions bitwise_generator_Z.
+
+(** the remaining oracle cases of the outer correspondence ([spec] 26-29 of coq/C17/Spec.v) are the regenerated source *)
+Theorem outer_oracle_matches_source_fields :
+  (forall a c s e, 0 <= s < e ->
+     s_bit_field_rotate a c s e
+     = (let w := e - s in let k := c mod w in let f := field a s e in
+        replace a (Z.land (Z.lor (Z.shiftl f k) (Z.shiftr f (w - k))) (Z.ones w)) s e))
+  /\ (forall a s e fuel, 0 <= s <= e -> (Z.to_nat (e - s) < fuel)%nat ->
+       s_bit_field_reverse fuel a s e = Some (replace a (rev_bits (Z.to_nat (e - s)) (field a s e) 0) s e))
+  /\ (forall idx i b, s_copy_bit idx i (negb (b =? 0)) = replace i (if b =? 0 then 0 else 1) idx (idx + 1))
+  /\ (forall i1 i2 a, s_bit_swap i1 i2 a
+       = replace (replace a (if Z.testbit a i2 then 1 else 0) i1 (i1 + 1)) (if Z.testbit a i1 then 1 else 0) i2 (i2 + 1)).
+Proof. exact (conj spec_rotate (conj spec_reverse (conj spec_copy_bit spec_bit_swap))). Qed.
+Print Assumptions outer_oracle_matches_source_fields.
+
+(** * (srfi 142) and (srfi 33): the procedures they define themselves (regenerated from 142.sld / 33.sld), with THEIR
+    argument conventions *)
+
+(** SRFI 142 bitwise-if = SRFI 33 bitwise-merge: where the mask has a 1 the bit of the LAST operand *)
+Theorem srfi142_bitwise_if_Z : forall mask n m k, 0 <= k ->
+  Z.testbit (s142_bitwise_if mask n m) k = if Z.testbit mask k then Z.testbit m k else Z.testbit n k.
+Proof. exact s142_bitwise_if_bits. Qed.
+Print Assumptions srfi142_bitwise_if_Z.
+Theorem srfi33_extract_bit_field_Z : forall size pos n k, 0 <= size -> 0 <= pos -> 0 <= k ->
+  Z.testbit (s33_extract_bit_field size pos n) k = (k <? size) && Z.testbit n (k + pos).
+Proof. exact s33_extract_bits. Qed.
+Print Assumptions srfi33_extract_bit_field_Z.
+Theorem srfi33_replace_bit_field_Z : forall size pos nf n k, 0 <= size -> 0 <= pos -> 0 <= k ->
+  Z.testbit (s33_replace_bit_field size pos nf n) k
+  = (if inr pos (pos + size) k then false else Z.testbit n k) || Z.testbit nf (k - pos).
+Proof. exact s33_replace_bits. Qed.
+Print Assumptions srfi33_replace_bit_field_Z.
+Theorem srfi33_copy_bit_field_Z : forall size pos from to k, 0 <= size -> 0 <= pos -> 0 <= k ->
+  Z.testbit (s33_copy_bit_field size pos from to) k
+  = if inr pos (pos + size) k then Z.testbit from k else Z.testbit to k.
+Proof. exact s33_copy_bits. Qed.
+Print Assumptions srfi33_copy_bit_field_Z.
